@@ -25,7 +25,7 @@ pub static DEF: PropDef = PropDef {
         "every tenth schedule is replayed in full and must reproduce the identical trace (determinism audit)",
     ],
     shards: (64, 128),
-    budget_ms: (120_000, 600_000),
+    budget_ms: (300_000, 900_000),
 };
 
 /// A redeem program with C jets, a case driven by a witness bit and 8-bit witnesses:
